@@ -40,5 +40,20 @@ Section Capture.
     intros y Hy. apply C19_wrapper_transparent; auto.
   Qed.
 End Capture.
+(* non-vacuity: concrete wrappers, arguments and values that meet the hypotheses above *)
+Definition ty0 : ttype := {| t_shape := []; t_mindex := None; t_mname := None; t_anon := false; t_lits := [] |}.
+Definition annA (s:string) (o:bool) : annot :=
+  {| a_ty := match parse_shape s with Ok ty => ty | Err _ => ty0 end; a_dtypes := []; a_opt := o |}.
+Definition tenE (l:list Z) : tensor := {| x_lib := LNumpy; x_dt := KF32; x_shape := l |}.
+Definition arrE (l:list Z) : value := VArr (tenE l).
+Definition w19 : wrapped := {| w_params := [("x", (false, [Some (annA "b c" false)]))]; w_ret := Some (false, [Some (annA "b" false)]); w_provider := PNone |}.
+(* a module body: returns the row sums of its argument (shape [b]) *)
+Definition body19 (args:list (string*value)) : bres :=
+  match arg_lookup "x" args with Some (VArr t) => BReturn (arrE (firstn 1 (x_shape t))) | _ => BRaise end.
+Example ex19_conforming_input : conforming w19 (PSOk []) body19 [("x", arrE [2;3]%Z)] /\
+  wrapped_outcome w19 (PSOk []) body19 [("x", arrE [2;3]%Z)] = CReturned (arrE [2]%Z).
+Proof. vm_compute. split; [exact I | reflexivity]. Qed.
+Example ex19_not_everything_conforms : ~ conforming w19 (PSOk []) body19 [("x", arrE [2]%Z)].
+Proof. vm_compute. exact (fun f => f). Qed.
 Redirect "C19.assumptions.1" Print Assumptions C19_wrapper_transparent.
 Redirect "C19.assumptions.2" Print Assumptions C19_capture_equal.
